@@ -107,6 +107,13 @@ def main():
         r["mode"] = "in-repo" if a.in_repo else "worktree"
         old[r["id"]] = r
     json.dump(sorted(old.values(), key=lambda r: r["id"]), open(path, "w"), indent=1)
+    # remember the outcome of the FIRST run of every seed (checks may be strengthened after a miss)
+    hpath = os.path.join(SEEDED, "HISTORY.json")
+    hist = json.load(open(hpath)) if os.path.exists(hpath) else {}
+    for r in results:
+        if r["id"] not in hist and "error" not in r:
+            hist[r["id"]] = {"first_run": "DETECTED" if r.get("detected") else "MISSED"}
+    json.dump(hist, open(hpath, "w"), indent=1, sort_keys=True)
 
 
 main()
